@@ -7,14 +7,14 @@ use chumsky::input::{Input, IoInput, IterInput, Stream};
 use chumsky::span::SimpleSpan;
 use chumsky::Parser;
 
-use crate::ast::{Case, Mode};
-use crate::build::Builder;
+use crate::ast::{Case, Mode, STree, TTree};
+use crate::build::{Builder, Ex};
 use crate::errs::HErr;
 use crate::input::{
-    shift_span, split_ref, split_val, Counting, HInput, HState, IoIn, IterIn, MapSpanIn, MappedIn, MappedStreamIn,
-    Spanned, StreamIn, WithCtxIn, WITHCTX_CONTEXT,
+    shift_span, split_ref, split_val, tree_input, Counting, Cur, HInput, HState, IoIn, IterIn, MapSpanIn, MappedIn,
+    MappedStreamIn, Spanned, StreamIn, TreeIn, WithCtxIn, STT, TT, WITHCTX_CONTEXT,
 };
-use crate::val::{HTok, Val};
+use crate::val::{track, HTok, Val};
 
 // ---------- error types ----------
 
@@ -68,21 +68,48 @@ where
         }
     };
     let input = make();
-    let mut state = HState::default();
-    let (output, errs): (Option<Option<Val>>, Vec<E>) = match case.mode {
-        Mode::Parse => {
-            let (o, e) = parser.parse_with_state(input, &mut state).into_output_errors();
-            (o.map(Some), e)
-        }
-        Mode::Check => {
-            let (o, e) = parser.check_with_state(input, &mut state).into_output_errors();
-            (o.map(|()| None), e)
-        }
+    let text = match case.mode {
+        Mode::Parse => exec_parse::<I, E, _>(&parser, input, &cv),
+        Mode::Check => exec_check::<I, E, _>(&parser, input, &cv),
     };
+    Outcome { text, parsed: true }
+}
 
+/// `w.parse_with_state(input, &mut HState::default())`, printed. `W` may be a trait object.
+pub fn exec_parse<'a, I, E, W>(w: &W, input: I, cv: &I::Conv) -> String
+where
+    I: HInput<'a>,
+    E: HErr<'a, I>,
+    W: Parser<'a, I, Val, Ex<E>> + ?Sized,
+{
+    let mut state = HState::default();
+    let (o, e) = w.parse_with_state(input, &mut state).into_output_errors();
+    render::<I, E>(o.map(Some), e, cv)
+}
+
+/// `w.check_with_state(input, &mut HState::default())`, printed.
+pub fn exec_check<'a, I, E, W>(w: &W, input: I, cv: &I::Conv) -> String
+where
+    I: HInput<'a>,
+    E: HErr<'a, I>,
+    W: Parser<'a, I, Val, Ex<E>>,
+{
+    let mut state = HState::default();
+    let (o, e) = w.check_with_state(input, &mut state).into_output_errors();
+    render::<I, E>(o.map(|()| None), e, cv)
+}
+
+/// The result text of a completed parse (`OK ..`/`FAIL ..`). The number of tracked values in the output is
+/// left with the drop accounting; the output and the errors are dropped here.
+fn render<'a, I, E>(output: Option<Option<Val>>, errs: Vec<E>, cv: &I::Conv) -> String
+where
+    I: HInput<'a>,
+    E: HErr<'a, I>,
+{
     let mut out = String::new();
     match output {
         Some(Some(v)) => {
+            track::note_output(v.tracked_count());
             out.push_str("OK ");
             v.canon(&mut out);
             out.push(' ');
@@ -91,7 +118,7 @@ where
         None => out.push_str("FAIL "),
     }
     out.push_str("E[");
-    let conv = |raw: usize| I::pos(&cv, raw);
+    let conv = |raw: usize| I::pos(cv, raw);
     for (i, e) in errs.iter().enumerate() {
         if i > 0 {
             out.push(';');
@@ -99,7 +126,7 @@ where
         e.canon(&conv, &mut out);
     }
     out.push(']');
-    Outcome { text: out, parsed: true }
+    out
 }
 
 // ---------- buffers ----------
@@ -135,19 +162,19 @@ fn eoi(case: &Case) -> SimpleSpan<usize> {
 /// `str`: `&str`
 pub fn run_str<S: ESel>(case: &Case, why: bool) -> String {
     let buf: String = chars(case).into_iter().collect();
-    run::<&str, S::Err<'_, &str>, _>(case, &buf, || &buf, why).text
+    run::<&str, S::Err<'_, &str>, _>(case, Cur::new(&buf), || &buf, why).text
 }
 
 /// `slice`: `&[char]`
 pub fn run_slice<S: ESel>(case: &Case, why: bool) -> String {
     let buf = chars(case);
-    run::<&[char], S::Err<'_, &[char]>, _>(case, &buf[..], || &buf[..], why).text
+    run::<&[char], S::Err<'_, &[char]>, _>(case, Cur::new(&buf[..]), || &buf[..], why).text
 }
 
 /// `bytes`: `&[u8]`
 pub fn run_bytes<S: ESel>(case: &Case, why: bool) -> String {
     let buf = bytes(case);
-    run::<&[u8], S::Err<'_, &[u8]>, _>(case, &buf[..], || &buf[..], why).text
+    run::<&[u8], S::Err<'_, &[u8]>, _>(case, Cur::new(&buf[..]), || &buf[..], why).text
 }
 
 /// `array`: `&[char; N]` for inputs of exactly `N` tokens
@@ -161,7 +188,7 @@ pub fn run_array<S: ESel, const N: usize>(case: &Case, why: bool) -> String {
             return "UNSUPPORTED".to_string();
         }
     };
-    run::<&[char; N], S::Err<'_, &[char; N]>, _>(case, &buf[..], || &buf, why).text
+    run::<&[char; N], S::Err<'_, &[char; N]>, _>(case, Cur::new(&buf[..]), || &buf, why).text
 }
 
 /// `array` for every supported length (0..=8)
@@ -219,7 +246,7 @@ pub fn run_mapped<S: ESel>(case: &Case, why: bool) -> String {
     let eoi = eoi(case);
     run::<MappedIn<'_>, S::Err<'_, MappedIn<'_>>, _>(
         case,
-        &buf[..],
+        Cur::new(&buf[..]),
         || <&[Spanned] as Input>::map(&buf[..], eoi, split_ref as fn(&Spanned) -> (&char, &SimpleSpan<usize>)),
         why,
     )
@@ -252,7 +279,7 @@ pub fn run_mapspan<S: ESel>(case: &Case, why: bool) -> String {
     let buf: String = chars(case).into_iter().collect();
     run::<MapSpanIn<'_>, S::Err<'_, MapSpanIn<'_>>, _>(
         case,
-        &buf,
+        Cur::new(&buf),
         || <&str as Input>::map_span(&buf, shift_span as fn(SimpleSpan<usize>) -> SimpleSpan<usize>),
         why,
     )
@@ -264,7 +291,7 @@ pub fn run_withctx<S: ESel>(case: &Case, why: bool) -> String {
     let buf: String = chars(case).into_iter().collect();
     run::<WithCtxIn<'_>, S::Err<'_, WithCtxIn<'_>>, _>(
         case,
-        &buf,
+        Cur::new(&buf),
         || <&str as Input>::with_context::<SimpleSpan<usize, u8>>(&buf, WITHCTX_CONTEXT),
         why,
     )
@@ -276,4 +303,21 @@ pub fn run_io<S: ESel>(case: &Case, why: bool) -> String {
     let buf = bytes(case);
     let n = buf.len();
     run::<IoIn, S::Err<'_, IoIn>, _>(case, n, move || IoInput::new(std::io::Cursor::new(buf)), why).text
+}
+
+/// `tree`: `&[(TT, SimpleSpan)]` through `Input::map(eoi, |(t, s)| (t, s))`
+pub fn run_tree<S: ESel>(case: &Case, why: bool) -> String {
+    fn tokens(ts: &[STree]) -> Vec<STT> {
+        ts.iter()
+            .map(|(t, s, e)| {
+                let t = match t {
+                    TTree::Leaf(c) => TT::Leaf(char::from_u32(*c).expect("token validated by ast::parse_case")),
+                    TTree::Group(id, children) => TT::Group(*id, tokens(children)),
+                };
+                (t, SimpleSpan::from(*s..*e))
+            })
+            .collect()
+    }
+    let buf = tokens(&case.tree);
+    run::<TreeIn<'_>, S::Err<'_, TreeIn<'_>>, _>(case, Cur::new(&buf[..]), || tree_input(&buf[..]), why).text
 }
